@@ -32,4 +32,14 @@ PROPS = {
                      "generated ids: the theorem covers conversion from any u128; that generate() goes through that conversion is checked by the translator-independent run of 10^4 calls"],
         explanation="Theorems rfc_layout, decode_encode, refuse_iff, unique, decode_spec, injective, tid_mask, tid_fits, constants are stated about Gen.* -- the code's own expressions, re-translated from /repo on this run -- and are checked by kernel evaluation over the complete finite domains (4x4096, 65536, 16384 values; tid_mask for every natural number). The correspondence run pushes the same complete domains through the real code and compares with the RFC-level Spec.",
     ),
+    "C17": dict(
+        title="A prefix of a message is reported as truncated with the length still needed",
+        modules=["StunVerif.Props.C17"],
+        families={"quick": [("msg.cut", 12, 8)], "thorough": [("msg.cut", 400, 16)]},
+        nontrivial=lambda tag: True,
+        rule="well-formed messages assembled from TLVs (0-3 ordinary attributes from all typed kinds/unknown types x tails over MI, MI-SHA256, FP) cut at EVERY point 0..len, plus MessageHeader::from_bytes on every prefix up to 24 bytes, on the full buffer, on bit-mutated headers and on 20-byte prefixes with zero length (stand-alone decoder vs full parser 'not STUN' verdict); a 65 552-byte message at 40 (thorough 2000) cut points; every case non-trivial; distinct = distinct case line",
+        trusted=COMMON_TRUST,
+        assumptions=["usize arithmetic does not overflow (lengths < 2^63)"],
+        explanation="Theorems prefix_truncated (every well-formed message per the independent Spec.WellFormed, every cut point: Truncated(20 below 20 bytes, else exactly len m; available = prefix length)), header_iff, header_iff_not_nonstun, header_agrees hold for all byte strings of the model headerFromBytes/msgFromBytes; the correspondence run executes all cut points of generated messages on the real parser and header decoder and compares error fields exactly.",
+    ),
 }
